@@ -41,6 +41,22 @@ class ChunksIter:
         self.s, self.n, self.i, self.exact = s, n, 0, exact
 
 
+class MapVal:
+    """BTreeMap / HashMap: python dict keyed by the frozen key, value = (key, value); iteration in
+    key order for BTreeMap (integers and byte strings order as in Rust), insertion order otherwise."""
+    __slots__ = ("d", "sorted")
+
+    def __init__(self, sorted_=True):
+        self.d = {}
+        self.sorted = sorted_
+
+    def items(self):
+        ks = list(self.d.keys())
+        if self.sorted:
+            ks.sort(key=lambda k: k[1] if isinstance(k, tuple) and len(k) == 2 and k[0] == "slice" else k)
+        return [self.d[k] for k in ks]
+
+
 class WindowsIter:
     __slots__ = ("s", "n", "i")
 
@@ -265,6 +281,21 @@ def iter_next(I, it, depth):
             it.i = it.s.len
             return some(sl)
         return NONE()
+    if isinstance(it, Ref):
+        return iter_next(I, deref(I, it), depth)
+    if isinstance(it, Adt) and not it.path.startswith(("core::", "std::", "alloc::", "model::")):
+        # an iterator type of the crate: run its own `Iterator::next`
+        idx = getattr(I.P, "_next_index", None)
+        if idx is None:
+            idx = {}
+            for fid_ in I.P.fns:
+                m_ = re.match(r"^<([A-Za-z0-9_:]+)(<.*>)? as std::iter::Iterator>::next$", fid_)
+                if m_:
+                    idx.setdefault(m_.group(1), []).append(fid_)
+            I.P._next_index = idx
+        c_ = idx.get(it.path, [])
+        if len(c_) == 1:
+            return I.run(I.P.fns[c_[0]], [tmp_ref(it)], depth + 1)
     raise Unsupported("next() on %r" % (it,))
 
 
@@ -437,6 +468,20 @@ def to_ptr(I, p):
 
 def call(I, fr, name, fname, k, args, depth):
     short = name.rsplit("::", 1)[-1]
+    if "fmt::" in name or "ToString" in name or "io::Write" in name:
+        from . import fmtmodel
+
+        try:
+            handled, val = fmtmodel.call(I, fr, name, fname, k, args, depth)
+        except Unsupported:
+            # a value the fmt model cannot print (Debug of a crate type in an error message, ...):
+            # the text becomes an opaque string, as before the model existed; a rule that needs
+            # the text then fails closed when it looks at it
+            if name.endswith("fmt::format") or "to_string" in name:
+                return Opaque("string")
+            raise
+        if handled:
+            return val
     # ---- x86 intrinsics
     if "arch::x86_64::_mm" in name or "arch::x86::_mm" in name:
         cg = [int(x) for x in k.get("g", []) if re.fullmatch(r"-?\d+", x.strip())]
@@ -455,12 +500,16 @@ def call(I, fr, name, fname, k, args, depth):
         v = args[0]
         if isinstance(v, Slice):
             return SliceIter(v)
+        if isinstance(v, MapVal):
+            return ValIter([[k0, v0] for k0, v0 in v.items()])
         if isinstance(v, Ref):
             t = I.read_path(v.frame, v.local, v.path)
             if isinstance(t, list):
                 return SliceIter(Slice(t, 0, len(t)))
             if isinstance(t, Slice):
                 return SliceIter(t)
+            if isinstance(t, MapVal):
+                return ValIter([[tmp_ref(k0), tmp_ref(v0)] for k0, v0 in t.items()])
         if isinstance(v, list):
             return ValIter(list(v))
         return v
@@ -468,6 +517,52 @@ def call(I, fr, name, fname, k, args, depth):
         return iter_next(I, args[0], depth)
     if name.endswith("Iterator::enumerate"):
         return EnumIter(args[0])
+    if name.endswith("Iterator::collect") or name.endswith("Iterator>::collect"):
+        g = k.get("g") or []
+        tgt = g[-1] if g else ""
+        items = []
+        while True:
+            r = iter_next(I, args[0], depth)
+            if r.vi == 0:
+                break
+            items.append(r.fields[0])
+        if tgt.startswith("std::vec::Vec<") or tgt.startswith("alloc::vec::Vec<"):
+            return items
+        if "BTreeMap<" in tgt or "HashMap<" in tgt:
+            from .minimir import freeze as _fz
+
+            m = MapVal("BTreeMap<" in tgt)
+            for it_ in items:
+                kk = deref(I, it_[0])
+                m.d[_fz(kk)] = [it_[0], it_[1]]
+            return m
+        if tgt.endswith("string::String"):
+            b_ = []
+            for it_ in items:
+                it_ = deref(I, it_)
+                if isinstance(it_, int):
+                    b_ += list(chr(it_).encode("utf-8"))
+                else:
+                    sl_ = as_slice(I, it_)
+                    b_ += sl_.heap[sl_.start:sl_.start + sl_.len]
+            return StrBuf(b_)
+        mm = re.match(r"^(?:std|core)::result::Result<(?:std|alloc)::vec::Vec<.*>, .*>$", tgt)
+        if mm:
+            vals = []
+            for it_ in items:
+                if it_.vname == "Err":
+                    return it_
+                vals.append(it_.fields[0])
+            return ok(vals)
+        mm = re.match(r"^(?:std|core)::option::Option<(?:std|alloc)::vec::Vec<.*>>$", tgt)
+        if mm:
+            vals = []
+            for it_ in items:
+                if it_.vi == 0:
+                    return it_
+                vals.append(it_.fields[0])
+            return some(vals)
+        raise Unsupported("collect into %s" % tgt)
     if name.endswith("Iterator::take_while"):
         return TakeWhileIter(args[0], args[1])
     if name.endswith("Iterator::filter"):
@@ -589,6 +684,10 @@ def call(I, fr, name, fname, k, args, depth):
         if o.vi == 0:
             return args[1]
         return call_closure(I, args[2], [o.fields[0]], depth)
+    if name.endswith("bool::<impl bool>::then"):
+        return some(call_closure(I, args[1], [], depth)) if args[0] else NONE()
+    if name.endswith("bool::<impl bool>::then_some"):
+        return some(args[1]) if args[0] else NONE()
     if name.endswith("cell::Cell<T> as std::default::Default>::default") or name.endswith("cell::Cell<T> as core::default::Default>::default"):
         g = k.get("g", [])
         inner = None
@@ -621,6 +720,185 @@ def call(I, fr, name, fname, k, args, depth):
         old_ = c.fields[0]
         c.fields[0] = args[1]
         return old_
+    if name.endswith("sync::OnceLock::<T>::get_or_init") or name.endswith("sync::once_lock::OnceLock::<T>::get_or_init"):
+        r = args[0]
+        cell = deref(I, r)
+        if not (isinstance(cell, Adt) and cell.path.endswith("OnceLock")):
+            if r.path:
+                raise Unsupported("OnceLock inside a structure")
+            cell = Adt("std::sync::OnceLock", 0, "OnceLock", [NONE()])
+            r.frame.locals[r.local] = cell
+        if cell.fields[0].vi == 0:
+            cell.fields[0] = some(call_closure(I, args[1], [], depth))
+        return Ref(r.frame, r.local, list(r.path) + [("f", 0), ("f", 0)])
+    if ("collections::BTreeMap" in name or "collections::HashMap" in name or "btree::map::BTreeMap" in name or "hash::map::HashMap" in name) and "::" in name:
+        from .minimir import freeze as _fz
+
+        meth = name.rsplit("::", 1)[-1]
+        is_bt = "BTreeMap" in name
+
+        def kf(x):
+            x = deref(I, x)
+            if isinstance(x, Ref):
+                x = deref(I, x)
+            return _fz(x)
+
+        if meth in ("new", "with_capacity", "default", "with_capacity_and_hasher", "with_hasher"):
+            return MapVal(is_bt)
+        m = deref(I, args[0]) if args else None
+        if isinstance(m, MapVal):
+            if meth == "insert":
+                k_ = kf(args[1])
+                old_ = m.d.get(k_)
+                m.d[k_] = [args[1], args[2]]
+                return some(old_[1]) if old_ else NONE()
+            if meth in ("get", "get_mut"):
+                k_ = kf(args[1])
+                if k_ not in m.d:
+                    return NONE()
+                return some(Ref(_HeapFrame(m.d[k_]), 0, [("i", 1)]))
+            if meth == "contains_key":
+                return int(kf(args[1]) in m.d)
+            if meth == "entry":
+                return Adt("model::MapEntry", 0, "Entry", [m, args[1]])
+            if meth in ("first_key_value", "last_key_value"):
+                its = m.items()
+                if not its:
+                    return NONE()
+                pr = its[0] if meth.startswith("first") else its[-1]
+                return some([Ref(_HeapFrame(pr), 0, [("i", 0)]), Ref(_HeapFrame(pr), 0, [("i", 1)])])
+            if meth == "remove":
+                k_ = kf(args[1])
+                v_ = m.d.pop(k_, None)
+                return some(v_[1]) if v_ else NONE()
+            if meth == "len":
+                return len(m.d)
+            if meth == "is_empty":
+                return int(not m.d)
+            if meth == "clear":
+                m.d.clear()
+                return []
+            if meth == "iter":
+                return ValIter([[tmp_ref(k0), tmp_ref(v0)] for k0, v0 in m.items()])
+            if meth == "keys":
+                return ValIter([tmp_ref(k0) for k0, v0 in m.items()])
+            if meth == "values":
+                return ValIter([tmp_ref(v0) for k0, v0 in m.items()])
+            if meth == "into_iter":
+                return ValIter([[k0, v0] for k0, v0 in m.items()])
+        raise Unsupported("map method %s" % name)
+    if name.endswith("env::var") or name.endswith("env::var_os"):
+        key = as_slice(I, args[0])
+        kb = bytes(key.heap[key.start:key.start + key.len]).decode("utf-8", "replace")
+        val = getattr(I, "env", {}).get(kb)
+        if val is None:
+            return err(Adt("std::env::VarError", 0, "NotPresent", [])) if name.endswith("env::var") else NONE()
+        sb = StrBuf(list(val.encode()))
+        return ok(sb) if name.endswith("env::var") else some(sb)
+    if name.endswith("result::Result::<T, E>::is_ok_and"):
+        o = args[0]
+        return int(bool(call_closure(I, args[1], [o.fields[0]], depth))) if o.vname == "Ok" else 0
+    if name.endswith("result::Result::<T, E>::is_err_and"):
+        o = args[0]
+        return int(bool(call_closure(I, args[1], [o.fields[0]], depth))) if o.vname == "Err" else 0
+    if name.endswith("option::Option::<T>::is_none_or"):
+        o = args[0]
+        return int(bool(call_closure(I, args[1], [o.fields[0]], depth))) if o.vi == 1 else 1
+    if name.endswith("option::Option::<T>::take"):
+        cur = deref(I, args[0])
+        I.write_ref(args[0], NONE())
+        return cur
+    if name.endswith("option::Option::<T>::replace"):
+        cur = deref(I, args[0])
+        I.write_ref(args[0], some(args[1]))
+        return cur
+    if name.endswith("option::Option::<T>::insert") or name.endswith("option::Option::<T>::get_or_insert_with") or name.endswith("option::Option::<T>::get_or_insert"):
+        cur = deref(I, args[0])
+        if name.endswith("::insert") or cur.vi == 0:
+            v_ = args[1] if not name.endswith("_with") else call_closure(I, args[1], [], depth)
+            I.write_ref(args[0], some(v_))
+        r = args[0]
+        return Ref(r.frame, r.local, list(r.path) + [("f", 0)])
+    if name.endswith("mem::take"):
+        g = (k.get("g") or [""])[0]
+        cur = deref(I, args[0])
+        if isinstance(cur, list):
+            dv = []
+        elif isinstance(cur, StrBuf):
+            dv = StrBuf([])
+        elif isinstance(cur, MapVal):
+            dv = MapVal(cur.sorted)
+        elif isinstance(cur, bool) or isinstance(cur, int):
+            dv = 0
+        elif isinstance(cur, Adt) and cur.path.endswith("Option"):
+            dv = NONE()
+        else:
+            raise Unsupported("mem::take of %r (%s)" % (cur, g))
+        I.write_ref(args[0], dv)
+        return cur
+    if name.endswith("mem::replace"):
+        cur = deref(I, args[0])
+        I.write_ref(args[0], args[1])
+        return cur
+    if name.endswith("mem::swap"):
+        a_, b_ = deref(I, args[0]), deref(I, args[1])
+        I.write_ref(args[0], b_)
+        I.write_ref(args[1], a_)
+        return []
+    if name.endswith("borrow::Cow<'_, B> as std::ops::Deref>::deref") or name.endswith("borrow::Cow<'_, B> as core::ops::Deref>::deref") or (name.endswith("::as_ref") and "borrow::Cow" in name):
+        c = deref(I, args[0])
+        v_ = c.fields[0]
+        v_ = deref(I, v_)
+        return as_slice(I, v_)
+    if name.endswith("borrow::Cow::<'_, B>::into_owned") or name.endswith("borrow::Cow::<'a, B>::into_owned"):
+        c = args[0]
+        v_ = deref(I, c.fields[0])
+        if isinstance(v_, StrBuf):
+            return v_
+        sl_ = as_slice(I, v_)
+        return StrBuf(list(sl_.heap[sl_.start:sl_.start + sl_.len]))
+    if "map::Entry::<" in name or "map::entry::Entry::<" in name:
+        from .minimir import freeze as _fz
+
+        meth = name.rsplit("::", 1)[-1]
+        e_ = args[0]
+        m, key_ = e_.fields
+        kfz = _fz(deref(I, key_))
+        if meth in ("or_insert", "or_insert_with", "or_default"):
+            if kfz not in m.d:
+                if meth == "or_insert":
+                    v_ = args[1]
+                elif meth == "or_insert_with":
+                    v_ = call_closure(I, args[1], [], depth)
+                else:
+                    g = (k.get("g") or ["", ""])
+                    vt = g[1] if len(g) > 1 else ""
+                    v_ = [] if "Vec<" in vt else (StrBuf([]) if vt.endswith("String") else 0)
+                m.d[kfz] = [key_, v_]
+            return Ref(_HeapFrame(m.d[kfz]), 0, [("i", 1)])
+        if meth == "and_modify":
+            if kfz in m.d:
+                call_closure(I, args[1], [Ref(_HeapFrame(m.d[kfz]), 0, [("i", 1)])], depth)
+            return e_
+        raise Unsupported("entry method %s" % name)
+    if name.endswith("clone::Clone>::clone") or fname.endswith("clone::Clone::clone"):
+        def cl(v):
+            if isinstance(v, list):
+                return [cl(x) for x in v]
+            if isinstance(v, StrBuf):
+                return StrBuf(list(v.b))
+            if isinstance(v, Adt):
+                return Adt(v.path, v.vi, v.vname, [cl(x) for x in v.fields])
+            if isinstance(v, MapVal):
+                m2 = MapVal(v.sorted)
+                m2.d = {kk: [cl(p[0]), cl(p[1])] for kk, p in v.d.items()}
+                return m2
+            return v
+
+        return cl(deref(I, args[0]))
+    if name.endswith("ops::Fn::call") or name.endswith("ops::FnMut::call_mut") or name.endswith("ops::FnOnce::call_once"):
+        tup = args[1]
+        return call_closure(I, args[0], list(tup) if isinstance(tup, list) else [tup], depth)
     if name.endswith("cell::OnceCell::<T>::new"):
         return Adt("core::cell::OnceCell", 0, "OnceCell", [NONE()])
     if name.endswith("cell::OnceCell::<T>::get_or_init"):
@@ -1030,6 +1308,8 @@ def call(I, fr, name, fname, k, args, depth):
         return err(call_closure(I, args[1], [], depth))
     if name.endswith("hint::must_use"):
         return args[0]
+    if name.endswith("str::from_utf8_unchecked") or name.endswith("str::converts::from_utf8_unchecked"):
+        return as_slice(I, args[0])
     if name.endswith("str::converts::from_utf8") or name.endswith("str::from_utf8"):
         sl = as_slice(I, args[0])
         try:
@@ -1037,7 +1317,15 @@ def call(I, fr, name, fname, k, args, depth):
             return ok(sl)
         except UnicodeDecodeError:
             return err(Opaque("Utf8Error"))
-    if name.endswith("string::String::from_utf8_lossy") or name.endswith("Cow::<'_, B>::into_owned") or name.endswith("borrow::Cow::<'_, B>::into_owned") or name.endswith("fmt::format") or "fmt::Arguments" in name or "fmt::rt::Argument" in name or name.endswith("string::ToString>::to_string") or name.endswith("ToString::to_string"):
+    if name.endswith("string::String::from_utf8_lossy"):
+        sl = as_slice(I, args[0])
+        raw = bytes(sl.heap[sl.start:sl.start + sl.len])
+        try:
+            raw.decode("utf-8")
+            return Adt("alloc::borrow::Cow", 0, "Borrowed", [sl])
+        except UnicodeDecodeError:
+            return Adt("alloc::borrow::Cow", 1, "Owned", [StrBuf(list(raw.decode("utf-8", "replace").encode("utf-8")))])
+    if name.endswith("string::String::from_utf8_lossy_XX") or name.endswith("Cow::<'_, B>::into_owned") or name.endswith("borrow::Cow::<'_, B>::into_owned") or name.endswith("fmt::format") or "fmt::Arguments" in name or "fmt::rt::Argument" in name or name.endswith("string::ToString>::to_string") or name.endswith("ToString::to_string"):
         return Opaque("string")
     if name.endswith("slice::<impl [T]>::iter"):
         return SliceIter(as_slice(I, args[0]))
@@ -1110,6 +1398,31 @@ def call(I, fr, name, fname, k, args, depth):
     if name.endswith("str::<impl str>::to_uppercase"):
         sl = as_slice(I, args[0])
         return StrBuf(bytes(sl.heap[sl.start:sl.start + sl.len]).decode("utf-8", "surrogateescape").upper().encode("utf-8", "surrogateescape"))
+    if name.endswith("str::<impl str>::replace") or name.endswith("str::<impl str>::replacen"):
+        a = as_slice(I, args[0])
+        hay = bytes(a.heap[a.start:a.start + a.len])
+        b = deref(I, args[1])
+        if isinstance(b, int):
+            pat = chr(b).encode("utf-8")
+        elif isinstance(b, (Slice, StrBuf)):
+            bs = as_slice(I, b)
+            pat = bytes(bs.heap[bs.start:bs.start + bs.len])
+        else:
+            raise Unsupported("str::replace pattern %r" % (b,))
+        to = as_slice(I, args[2])
+        tob = bytes(to.heap[to.start:to.start + to.len])
+        if not pat:
+            raise Unsupported("str::replace with empty pattern")
+        return StrBuf(list(hay.replace(pat, tob) if name.endswith("replace") else hay.replace(pat, tob, args[3])))
+    if name.endswith("slice::<impl [S]>::join") or name.endswith("slice::<impl [V]>::join") or name.endswith("slice::<impl [T]>::join") or name.endswith("slice::Join<&str>>::join"):
+        parts = as_slice(I, args[0])
+        sep = as_slice(I, args[1])
+        sepb = bytes(sep.heap[sep.start:sep.start + sep.len])
+        outb = []
+        for i_ in range(parts.len):
+            ps = as_slice(I, parts.heap[parts.start + i_])
+            outb.append(bytes(ps.heap[ps.start:ps.start + ps.len]))
+        return StrBuf(list(sepb.join(outb)))
     if name.endswith("str::<impl str>::contains") or name.endswith("str::<impl str>::ends_with") or name.endswith("str::<impl str>::find"):
         a = as_slice(I, args[0])
         hay = bytes(a.heap[a.start:a.start + a.len])
@@ -1448,6 +1761,9 @@ def call(I, fr, name, fname, k, args, depth):
 
 class _HeapFrame:
     __slots__ = ("locals", "fn", "id")
+
+    def __deepcopy__(self, memo):
+        return self
 
     def __init__(self, heap):
         self.locals = [heap]
